@@ -18,6 +18,8 @@ def jobs(tier):
             add('%s.cap%d.s2' % (pol, cap), [cap, 2, mx, 0, 0, 0], defs, '%s policy, chunk capacity %d, every 2-step script of Malloc/Realloc with sizes 0..%d, then copy/Clear/move/destroy' % (pol, cap, mx), nproc=4)
         add('%s.userbuf.s2' % pol, [64, 2, 100, 1, 200, 3], defs, '%s policy, user buffer of 200 bytes at misalignment 3, chunk 64, every 2-step script, sizes 0..100' % pol, nproc=4)
         add('%s.userbuf-aligned.s2' % pol, [64, 2, 100, 1, 128, 0], defs, '%s policy, aligned user buffer of 128 bytes, chunk 64, every 2-step script, sizes 0..100' % pol, nproc=4)
+    for pol, defs in (('simple', ()), ('adaptive', ('POLICY_ADAPTIVE',))):
+        add('%s.big.s2' % pol, [1024, 2, 100, 0, 0, 0, 1], defs, '%s policy, chunk 1024, first request in {65536, 65537, 70000, 131073} then one symbolic step, sizes 0..100' % pol, nproc=4)
     add('simple.cap64.s3', [64, 3, 100 if q else 136, 0, 0, 0], (), 'simple policy, chunk 64, every 3-step script, sizes 0..%d' % (100 if q else 136))
     if not q:
         add('adaptive.cap64.s3', [64, 3, 136, 0, 0, 0], ('POLICY_ADAPTIVE',), 'adaptive policy, chunk 64, every 3-step script, sizes 0..136')
